@@ -43,7 +43,7 @@ RECURSIVE = {"EMA", "RMA", "OBV", "VWAP", "ATR", "RSI", "TR", "Counter", "MACD",
 def spaces(tier):
     if tier == "quick":
         return dict(sigma="UDJ", n=3, lifes=(0, 1, 2, 2.5, 3, 5, 8), tfs=(None, "T2", "T2+fill"), horizon=3.0)
-    return dict(sigma="UDJ", n=5, lifes=(0, 1, 2, 2.5, 3, 4.75, 5, 8, 11), tfs=(None, "T2", "T2+fill"), horizon=6.0)
+    return dict(sigma="UDJ", n=4, lifes=(0, 1, 2, 2.5, 3, 4.75, 5, 8, 11), tfs=(None, "T2", "T2+fill"), horizon=6.0)
 
 
 def explore(item):
